@@ -814,6 +814,15 @@ def _iter_unused_names(
                         )
 
 
+def _runs_at_least_once(loop: ast.For | ast.While) -> bool:
+    try:
+        if isinstance(loop, ast.While):
+            return bool(core.literal_value(loop.test))
+        return any(True for _ in core.literal_value(loop.iter))
+    except (ValueError, TypeError):
+        return False
+
+
 def move_before_loop(source: str) -> str:
     root = core.parse(source)
 
@@ -836,6 +845,19 @@ def move_before_loop(source: str) -> str:
                 continue  # i.e. x[3] = 2
             if any(core.walk(scope, ast.AugAssign(target=ast.Name(id=targets)))):
                 continue  # i.e. x += 1
+
+            # The loop may run zero times. Then a name that is bound before the loop as well keeps
+            # its value, which it would not if the assignment were made before the loop.
+            bound_in_loop = collections.Counter(
+                name.id for name in core.walk(scope, ast.Name(id=targets, ctx=ast.Store))
+            )
+            bound_anywhere = collections.Counter(
+                name.id for name in core.walk(root, ast.Name(id=targets, ctx=ast.Store))
+            )
+            if not _runs_at_least_once(scope) and (
+                bound_anywhere != bound_in_loop or any(core.walk(root, ast.arg(arg=targets)))
+            ):
+                continue
 
             remainder = scope.body[i + 1 :] + scope.body[:i]
             definite_created_names, maybe_created_names, _ = tracing.code_dependencies_outputs(
